@@ -770,23 +770,31 @@ MinkOK(e, idx) ==
 
 (***************************************************************************)
 (* Floating-point API against the integer API on quantised input (C07).    *)
-(* Input coordinates are decimals n / 10^d; quantising at precision p is   *)
-(* rounding n * 10^(p-d) to the nearest integer (either neighbour on an    *)
-(* exact tie).  All arithmetic here is BigInt.  e.rd9 holds the D result's *)
+(* Input coordinates are float64 values logged exactly as m * 2^e;         *)
+(* quantising at precision p is rounding x * 10^p to the nearest integer   *)
+(* (either neighbour at a tie).  All arithmetic here is BigInt.  e.rd9 holds the D result's *)
 (* coordinates times 10^(p+9); they must equal the 64-bit result's         *)
 (* coordinates (times 10^9) up to 10^-6 plus float64 rounding of the       *)
 (* division (relative 10^-15).                                             *)
 (***************************************************************************)
 Pow10B(k) == LET f[i \in 0..k] == IF i = 0 THEN GB!FromInt(1) ELSE GB!Mul(f[i - 1], GB!FromInt(10)) IN f[k]
 
-QuantOK(n, q, s) ==
-  IF s >= 0 THEN q = GB!Mul(n, Pow10B(s))
-  ELSE GB!Cmp(GB!Mul(GB!AbsB(GB!Sub(n, GB!Mul(q, Pow10B(-s)))), GB!FromInt(2)), Pow10B(-s)) <= 0
+Pow2B(k) == LET f[i \in 0..k] == IF i = 0 THEN GB!FromInt(1) ELSE GB!Mul(f[i - 1], GB!FromInt(2)) IN f[k]
 
-QuantPathsOK(A, Q, s) ==
-  /\ Len(A) = Len(Q)
-  /\ \A k \in 1..Len(A) : Len(A[k]) = Len(Q[k]) /\
-        \A i \in 1..Len(A[k]) : QuantOK(A[k][i][1], Q[k][i][1], s) /\ QuantOK(A[k][i][2], Q[k][i][2], s)
+\* x = c.m * 2^(c.e) is the float64 coordinate exactly; q must be the nearest integer to x * 10^p.
+\* The implementation forms x * 10^p in float64 (one rounding, relative 2^-53) before rounding to an
+\* integer, so either neighbour is accepted when x * 10^p is within that error of a tie.
+QuantOK(c, q, p) ==
+  LET num == GB!Mul(GB!Mul(c.m, Pow2B(IF c.e > 0 THEN c.e ELSE 0)), Pow10B(IF p > 0 THEN p ELSE 0))
+      den == GB!Mul(Pow2B(IF c.e < 0 THEN -c.e ELSE 0), Pow10B(IF p < 0 THEN -p ELSE 0))
+      d2  == GB!Mul(GB!AbsB(GB!Sub(num, GB!Mul(q, den))), GB!FromInt(2))
+  IN  GB!Cmp(GB!Mul(d2, Pow2B(50)),
+             GB!Mul(den, GB!Add(Pow2B(50), GB!Add(GB!Mul(GB!AbsB(q), GB!FromInt(2)), GB!FromInt(2))))) <= 0
+
+QuantPathsOK(X, Q, p) ==
+  /\ Len(X) = Len(Q)
+  /\ \A k \in 1..Len(X) : Len(X[k]) = Len(Q[k]) /\
+        \A i \in 1..Len(X[k]) : QuantOK(X[k][i][1], Q[k][i][1], p) /\ QuantOK(X[k][i][2], Q[k][i][2], p)
 
 CoordMatches(rd9, r64) ==
   GB!Cmp(GB!Mul(GB!AbsB(GB!Sub(rd9, GB!Mul(r64, Pow10B(9)))), Pow10B(6)), GB!Add(Pow10B(9), GB!AbsB(r64))) <= 0
@@ -799,7 +807,7 @@ ResultMatches(RD9, R64) ==
 C07OK(e) ==
   IF e.p < -8 \/ e.p > 8 THEN e.out = "panic:precision is out of range"
   ELSE /\ e.out = "ok" /\ e.ok
-       /\ QuantPathsOK(e.a, e.qa, e.p - e.d) /\ QuantPathsOK(e.b, e.qb, e.p - e.d)
+       /\ QuantPathsOK(e.xa, e.qa, e.p) /\ QuantPathsOK(e.xb, e.qb, e.p)
        /\ ResultMatches(e.rd9, e.r64)
        /\ e.td = e.t64
 
